@@ -17,7 +17,10 @@ OBLIGATIONS = ["mgm_no_reentrancy_partial", "mgm_isolated_finishes", "dsa_isolat
                "mgm_no_deadlock",
                # deepening (P_Dsa3.v): the full DSA statement for every schedule
                "dsa_barrier_invariant", "dsa_neighbours_one_cycle_apart", "dsa_trace_ok", "dsa_terminates_k",
-               "dsa_no_deadlock"]
+               "dsa_no_deadlock",
+               # deepening 2 (P_Mgm2x/y/s*/f/z.v): the full MGM2 statement for every schedule
+               "mgm2_barrier_invariant", "mgm2_phase_order", "mgm2_partner_handshake", "mgm2_trace_ok",
+               "mgm2_terminates_k", "mgm2_no_deadlock", "mgm2_run_fuel60", "mgm2_terminates_k_fuel60"]
 N_QUICK, N_THOROUGH = 300, 6000
 PARALLEL = 8
 SHARD = 60
@@ -44,23 +47,29 @@ MODELLED = ("modelled: all message handlers of MgmComputation, DsaComputation an
             "exactly once with cycle counter k, quiescent => all finished and nothing held, no deadlock, no error "
             "event, for EVERY schedule (theorems mgm_barrier_invariant, mgm_terminates_k, mgm_no_deadlock, "
             "mgm_trace_ok); DSA (P_Dsa3.v): the same (dsa_barrier_invariant, dsa_terminates_k, dsa_no_deadlock, "
-            "dsa_trace_ok). NOT a theorem for MGM2: its global barrier invariant - checked by the "
-            "oracle on every run")
+            "dsa_trace_ok). MGM2 (P_Mgm2x/y/s*/f/z.v): the same for the five-phase protocol with the answer / go-no-go "
+            "partner handshake (mgm2_barrier_invariant, mgm2_phase_order, mgm2_partner_handshake, mgm2_trace_ok, "
+            "mgm2_terminates_k, mgm2_no_deadlock), stated for the model with the fuel of the nested _enter_state "
+            "recursion as a parameter (any fuel >= 10 * degree + 2; the compared model is fuel = 60: "
+            "mgm2_run_fuel60, mgm2_terminates_k_fuel60 for degree <= 5, which covers every generated case)")
 META = dict(
-    level_text=("Partial proof (Coq). MGM and DSA: FULL statement proved for all DCOPs, stop_cycle k > 0, oracles and ALL "
+    level_text=("Proof (Coq) of the full statement for the three algorithms (MGM2: see the fuel remark). MGM and DSA: FULL statement proved for all DCOPs, stop_cycle k > 0, oracles and ALL "
                 "schedules of starts and per-channel-FIFO deliveries (theorems mgm_/dsa_terminates_k, mgm_/dsa_no_deadlock, "
                 "mgm_/dsa_trace_ok over the global barrier invariants mgm_/dsa_barrier_invariant; DSA for every variant and probability): no handler error, every "
                 "computation reports finished exactly once with cycle counter k (0 without neighbour) in every "
                 "execution that ends with all computations started and no message in flight, and before that "
                 "some message is always in flight (nobody waits for ever). "
-                "MGM2 remains partial. Also proved for all DCOPs, oracles and ALL schedules of starts and FIFO deliveries: "
+                "MGM2: the same full statement (mgm2_terminates_k, mgm2_no_deadlock, mgm2_trace_ok over mgm2_barrier_invariant, plus "
+                "mgm2_partner_handshake: answers and go/no-go messages are exchanged exactly once between partners) for all "
+                "DCOPs, thresholds, favor modes, oracles and ALL schedules, about the model whose nested _enter_state recursion "
+                "has fuel >= 10 * degree + 2 (the real code has no fuel; the model compared with the implementation has fuel "
+                "60, i.e. the theorems cover it up to degree 5 = every generated case). Also proved for all DCOPs, oracles and ALL schedules of starts and FIFO deliveries: "
                 "the MGM handlers never process a postponed list re-entrantly and keep the postponed lists "
                 "consistent with the waiting state; proved locally for MGM, DSA, MGM2: a variable without neighbour "
                 "selects a value, reports finished once at start and sends nothing; finished() is only reported "
                 "when the cycle counter has reached stop_cycle > 0 and then nothing is sent; a finished DSA "
-                "computation stays silent. NOT proved for MGM2: the global barrier invariant that gives 'finished exactly "
-                "once with cycle counter k' and 'no computation left waiting' for every schedule; that part is "
-                "checked on every run by replaying seeded FIFO schedules on the real computations against the "
+                "computation stays silent. The tie between the models and the Python code is checked on every run by "
+                "replaying seeded FIFO schedules on the real computations against the "
                 "executable models (whole event trace, final states, channels) and by an independent oracle."),
     level_note=("Trusted: Coq kernel/vm_compute, M_Mgm.v / M_Dsa.v / M_Mgm2.v + Net.v as renderings of the Python "
                 "code, the thread-free netdriver. Costs inside int32 (find_arg_optimal sentinels are C06's)."),
